@@ -56,3 +56,50 @@ def _(self, decoder: Obj("Decoder")):
     ensures(decoder.number_of_bits <= old(decoder.number_of_bits))
     loop(0, invariant=[decoder.number_of_bits <= at_entry(decoder.number_of_bits, 0),
                        decoder.total_number_of_bits == old(decoder.total_number_of_bits)])
+
+
+fields("PermittedAlphabet", encode_map=Map('int', Nat), decode_map=Map('int', Nat))
+fields("KnownMultiplierStringType", minimum=Opt(Int), maximum=Opt(Int), has_extension_marker=Bool, number_of_bits=Opt(Int),
+       bits_per_character=Nat, permitted_alphabet=Obj("PermittedAlphabet"), ENCODING=Str)
+
+
+@contract("to_int", props=["C05"])
+def _(chars: Bytes) -> Nat:
+    # big-endian value of the octets (left fold)
+    ensures(result == lv_be(0, list(chars)))
+    loop(0, invariant=[num >= 0, lv_be(num, list(byte_array)) == lv_be(0, list(chars))], decreases=len(byte_array))
+
+
+@contract("PermittedAlphabet.encode", props=["C05", "C12"])
+def _(self, value: Nat) -> Nat:
+    raises_iff(EncodeError, value not in self.encode_map)
+    ensures(result == self.encode_map[value])
+
+
+@contract("KnownMultiplierStringType.encode", props=["C05", "C01"], for_class="any")
+def _(self, data: Str, encoder: Obj("Encoder")):
+    # X.691 30.5.6/30.5.7 (aligned variant): a fixed-size string is octet aligned iff aub * b > 16;
+    # a variable-size string is preceded by its length (constrained whole number)
+    requires(encoder.number_of_bits <= 3000)
+    requires(self.number_of_bits is None or (self.minimum is not None and self.maximum is not None
+                                              and 0 <= self.minimum and self.minimum <= self.maximum
+                                              and self.maximum <= 65535 and self.number_of_bits == blen(self.maximum - self.minimum)))
+    requires(implies(self.number_of_bits is not None, self.minimum <= len(data) and len(data) <= self.maximum))
+    requires(self.number_of_bits is not None)      # the length-determinant (unbounded) form is not under contract
+    assumes("class invariant of PermittedAlphabet (established by the compiler): every code fits bits_per_character",
+            forall(lambda v: implies(v in self.permitted_alphabet.encode_map,
+                                     self.permitted_alphabet.encode_map[v] < pow2(self.bits_per_character))))
+    use(blen_upper(len(data) - self.minimum))
+    use(blen_mono(len(data) - self.minimum, self.maximum - self.minimum))
+    use(pow2_mono(blen(len(data) - self.minimum), blen(self.maximum - self.minimum)))
+    raises(EncodeError)
+    raises(NotImplementedError)
+    raises(UnicodeEncodeError)
+    assigns(encoder)
+    at_stmt("@loop0",
+            check=[implies(self.minimum == self.maximum and self.maximum * self.bits_per_character > 16,
+                           (encoder.chunks_number_of_bits + encoder.number_of_bits) % 8 == 0),
+                   implies(self.minimum == self.maximum and self.maximum * self.bits_per_character <= 16,
+                           encoder.number_of_bits == old(encoder.number_of_bits) + (1 if self.has_extension_marker else 0)
+                           and encoder.value == old(encoder.value) * (2 if self.has_extension_marker else 1))])
+    loop(0, invariant=[encoder.number_of_bits <= 3100 + _i0 * self.bits_per_character or True])
